@@ -101,6 +101,22 @@ check("C15",
       "differential property-based testing: one generated body under two engines (asynq scheduler vs asyncio event loop) and a sequential reference",
       "DESIGN.md 5/C15")
 
+check("C16",
+      "2-5 (quick) / 2-16 (thorough) generated tie-free programs (harness batch kinds, DebugBatchItem, contexts, failures, synchronous re-entry) plus a deduplicated function called with the same arguments in every thread, with COLLECT_PERF_STATS on, run on as many threads: (turnstile) every body statement and flush body is a sync point and Hypothesis draws the sequence of thread turns, so the interleaving is deterministic, replayable and shrinkable; (free-running) switch interval 1e-6 s, barrier start, repeated runs. Oracle per thread: outcome, transcripts, statement sequence, flush compositions, context events, profiler entries (count, counters, names) and deduplicated-body runs equal the same program run alone on a fresh thread; scheduler objects pairwise distinct; the active task is always one of the thread's own; a DebugBatchItem's batch holds only own-thread items.",
+      "Trusted: tie-freeness of the programs; the oracle is schedule independent. OS preemption points inside asynq are only sampled (free-running mode).",
+      "property-based testing with a harness-owned (generated) thread schedule + free-running stress; metamorphic oracle 'concurrent run = solo run'",
+      "DESIGN.md 5/C16")
+check("C18",
+      "(glue) chains of distinct generated functions written to real source files (depth 1-8 quick / -40 thorough; raise at any level, directly or in a helper, before/after blocking; intermediate levels that catch and re-raise or catch and continue; awaited by yield, in a tuple, or called synchronously): the escaping exception's traceback restricted to generated functions must be exactly one frame per task level in call order ending at the raising line, and format_error must render it; (stack) format_asynq_stack() inside every level names that task and every creator, outermost first; (filter) filter_traceback on generated line lists (complete, truncated and sliced boilerplate runs, foreign lines containing pattern substrings) equals an independently written reference rewriter and keeps every other line in order; (totality) an enumerated matrix of 33 object kinds/lifecycle states x 7 renderings (str, repr, debug.str, debug.repr, dump at three indents) and 14 error kinds x highlighting x filtering for format_error/dump_error must never raise.",
+      "Trusted: the reference rewriter and the expected-frame rule. User objects whose own __repr__ raises are not generated.",
+      "property-based testing of generated call chains (real source files) + differential against a reference rewriter + exhaustive enumeration of an object-state x rendering matrix",
+      "DESIGN.md 5/C18")
+check("C19",
+      "The matrix target {module function, instance method, classmethod, staticmethod, plain attribute} x replacement {default mock, plain function, lambda, bound method, callable object, new_callable mock factory, new_callable callable class, non-callable} x activation {with, function decorator, class decorator, start/stop, stopall} x exit {normal, exception} x {patch by string, patch.object} is enumerated exhaustively; Hypothesis draws nested/sequential patch histories on one target with generated arguments. Oracle inside: sync call, .asynq().value(), yield from a task and asyncio.run(.asyncio()) each reach the replacement exactly once with exactly the given arguments (preceded by the instance only where Python's descriptor protocol binds it) and return its result; a non-callable is installed as is. After every exit path and after each level of nesting unwinds the owner's __dict__ entry is the previous object / finally the original object, which behaves as before.",
+      "Trusted: the expected-arguments rule (descriptor protocol) in harness/props/c19.py. new_callable is exercised as documented by the standard library.",
+      "exhaustive enumeration of a finite patching matrix + model-based nesting histories",
+      "DESIGN.md 5/C19")
+
 for pid in ["C%02d" % i for i in range(1, 21)]:
     if pid not in CHECKS:
         PENDING[pid] = "check under construction in this framework (designed in DESIGN.md section 5, not yet registered)"
